@@ -31,6 +31,21 @@ fn main() {
         std::process::exit(2);
     }
     let id = argv[1].to_uppercase();
+    // Hard memory cap: an engine that outgrows it ends as a machinery failure (exit 2) with a message,
+    // not in the kernel's OOM killer (which has twice ended a thorough run without a word). The
+    // explicit-state searches stop themselves earlier (soft cap VERIF_RSS_LIMIT_GB, reported as capped).
+    {
+        let hard: usize = std::env::var("VERIF_RSS_HARD_GB").ok().and_then(|s| s.parse().ok()).unwrap_or(40usize) << 30;
+        let id2 = id.clone();
+        std::thread::spawn(move || loop {
+            std::thread::sleep(std::time::Duration::from_millis(500));
+            let rss = core::rss_bytes();
+            if rss > hard {
+                println!("MACHINERY-ERROR property={id2} resident memory {} GB exceeds the hard cap of {} GB; no verdict", rss >> 30, hard >> 30);
+                std::process::exit(2);
+            }
+        });
+    }
     let mut tier = match std::env::var("VERIF_TIER").as_deref() {
         Ok("thorough") => Tier::Thorough,
         _ => Tier::Quick,
